@@ -191,6 +191,37 @@ func stepPools(d *hdrv, r *Rng, n int) {
 	d.block(6 * time.Second)
 }
 
+// a position that is opened and fully withdrawn again while older positions stay open: its id is gone for good on a live
+// chain (the id counter is state of its own), and the store keeps the closed position's accumulator record
+func stepClosedPosition(d *hdrv, r *Rng) {
+	k := d.c.App.LiquiditypoolKeeper
+	pools, err := k.GetAllPools(d.c.Ctx())
+	if err != nil || len(pools) == 0 {
+		return
+	}
+	p := pools[r.N(len(pools))]
+	who := 4 + r.N(4)
+	amt := sdkmath.NewInt(int64(500_000 + r.N(2_000_000)))
+	d.tx(who, &lptypes.MsgCreatePosition{Sender: d.addr(who), PoolId: p.Id, LowerTick: int64(-900 - r.N(500)), UpperTick: int64(700 + r.N(500)),
+		TokenBase: sdk.NewCoin(p.DenomBase, amt), TokenQuote: sdk.NewCoin(p.DenomQuote, amt), MinAmountBase: sdkmath.ZeroInt(), MinAmountQuote: sdkmath.ZeroInt()})
+	d.block(6 * time.Second)
+	all, err := k.GetAllPositions(d.c.Ctx())
+	if err != nil || len(all) == 0 {
+		return
+	}
+	newest := all[0]
+	for _, q := range all {
+		if q.Id > newest.Id {
+			newest = q
+		}
+	}
+	if newest.Address != d.addr(who) {
+		return
+	}
+	d.tx(who, &lptypes.MsgDecreaseLiquidity{Sender: d.addr(who), Id: newest.Id, Liquidity: newest.Liquidity})
+	d.block(6 * time.Second)
+}
+
 func factsPoolRoute(id uint64, in, out string) swaptypes.Route {
 	return swaptypes.Route{DenomIn: in, DenomOut: out, Strategy: &swaptypes.Route_Pool{Pool: &swaptypes.RoutePool{PoolId: id}}}
 }
